@@ -526,13 +526,17 @@ GROWN = {
            "fractional sub-box before the first Step / between iterations, use a fractional box that rounding maps into itself, "
            "and draw DE populations with SetMultinormalInitialPoints / SetSampledInitialPoints as well.",
     "C02": " Grown: see C01 (spellings, re-boxing with truncation-widening boxes 'shifted'/'negshift', other initial-point setters).",
-    "C03": " Grown: see C01 (integer-returning constraints, box 'fracround' on which clipping and rounding do not commute).",
+    "C03": " Grown: see C01 (integer-returning constraints, box 'fracround' on which clipping and rounding do not commute); the "
+           "reported-solution clause also holds while no finite energy has been found (own clause name; DE kinds: known finding); "
+           "starts deep behind an inf wall with stops after 1-3 iterations.",
     "C04": " Grown: configuration handed over as KEYWORDS of Step/Solve (Trace_Lifecycle.KwF/pend: Solve processes them on "
            "entry, Step only if it begins an iteration) - every script is also run in its keyword form; read-only QUERIES "
            "(Terminated(), Terminated(info=True), property reads) as the specified action Query = Resolve; objectives whose "
            "energies are exactly 0.0 / negative / integer-valued; Cover_Lifecycle's view distinguishes an evaluation monitor "
            "shorter than the counter and Step is driven from every abstract state; a trace rejected only on C05 clauses is "
-           "validated again with C05 waived (state follows the observation) so that the rest is still judged on C04.",
+           "validated again with C05 waived (state follows the observation) so that the rest is still judged on C04; FAULTS: the "
+           "objective raises once at the k-th call and the caller goes on (TraceAbort: the failed call counts); a dedicated counter "
+           "probe on objectives that return +inf (DE2 without evaluation monitor: known finding).",
     "C05": " Grown: the REAL interrupt path (specs/solver/Signal.tla, harness/c05_signal.py): handler installation by "
            "enable_signal_handler()/Solve, SIGINT raised from inside the cost function / callback with signal.raise_signal, the "
            "handler's menu (sol / call / cont / exit / unknown, any case) answered by a scripted builtins.input; TLC checks "
@@ -543,27 +547,50 @@ GROWN = {
            "objects on a heap; lattice/NM, buckshot/Powell, lattice/Powell (thorough: sparsity/NM) driven by Step and Solve; "
            "ResumeEquivalence, Independence, CopyCounts, TotalIsSum over all members; six refuted designs incl. "
            "member_dump_clobbers (found on the pinned tree, repaired).  Monitor classes and their cost multiplier k rotate "
-           "(Monitor / VerboseMonitor, the same with k=2, LoggingMonitor / VerboseLoggingMonitor with k=2).",
+           "(Monitor / VerboseMonitor, the same with k=2, LoggingMonitor / VerboseLoggingMonitor with k=2); two settings on an "
+           "objective with an inf wall (members that keep the solver's initial inf energy); in the odd settings the DE kinds run a "
+           "non-default strategy handed over the way Solve does, restored / copied instances continue with a bare Step().",
     "C07": " Grown: ensembles also driven by the user's loop 'while not solver.Terminated(): solver.Step()' with read-only "
            "queries between the steps, on configurations without limits whose members outrun the ensemble's own defaults.",
     "C08": " Grown: Powell with caller-supplied direction sets spelled as int lists / integer arrays / tuples, also through "
-           "fmin_powell; Nelder-Mead starts with tiny non-zero coordinates (1e-9 .. 5e-324) next to the exact-zero class.",
-    "C09": " Grown: integer nbins include primes (5, 7) in 2 and 3 dimensions.",
+           "fmin_powell; Nelder-Mead starts with tiny non-zero coordinates (1e-9 .. 5e-324) next to the exact-zero class; whole-"
+           "generation DE replay with the falsy settings CrossProbability=0 / ScalingFactor=0 given as Step keywords.",
+    "C09": " Grown: integer nbins include primes (5, 7) in 2 and 3 dimensions; GridGen.tla enumerates randomly_bin / samplepts / "
+           "random_samples / fillpts calls over boundary values (ones/exact flags, N up to 1024, npts 0/10/12/100, denormal and "
+           "1e299 boxes); Grid.tla at scales 5e-324..1e299 and with 4-12 bins; sample points also drawn from caller-supplied "
+           "distributions with tails beyond the box; constructor / bounds / limit spellings rotate (harness/c09_spell.py).",
+    "C10": " Grown: units 2^-1000..2^996 justified by TermMachine.Homogeneous, histories up to 32 entries with two-digit windows "
+           "and limits, conditions created with no argument (defaults in an exact unit), negative targets, rising histories; "
+           "spellings of settings, histories, counters, populations, gradients and TimeLimits rotate.",
+    "C15": " Grown: condition values as ints / numpy scalars / 0-d arrays / -0.0, halves and thirds, 2^-500..2^500 through binary "
+           "exponents, six spellings of ZeroDivision, args / kwds forms, k and h incl. 0 and omitted defaults, counters and "
+           "stored lists up to 13, argument forms of iter / store / stored, with_penalty / as_penalty forms (harness/c15_spell.py).",
+    "C17": " Grown: vectors and member results in seven / eight spellings, no member, 5-12 members, maxiter 10/12 and numpy ints, "
+           "sentinel modes; couplers with kwds=, keyword call arguments, omitted function, scaled units, k*h^n at iteration n; "
+           "bridges with omitted defaults and two-digit values.",
+    "C19": " Grown: math/MeasureUnits.tla (units from 2^-1000 to 2^1000 with UnitsLaw / UnitsStep, center_mass = 0, loads with "
+           "no or one value, off-lattice half steps, 10-12 points and 4-6 factors); every transition replayed a second time in a "
+           "rotated spelling (number types, containers, keywords, index forms, setter routes; harness/c19_spell.py).",
     "C11": " Grown: a quick detector table with non-monotone windows over three values; MEASURE collapses in the solver loop "
            "(CollapseWeight / CollapsePosition on solvers whose parameter vector is a flattened product measure, "
            "harness/c11_measure.py): zero weights and tracked pairs as further relation kinds of Collapse.tla.",
     "C12": " Grown: program texts in four white-space spellings; symbolic_bounds at the magnitudes 1e-10, 1e10, 1e-300 and "
            "with more than 8 decimals.",
-    "C13": " Grown: system texts in four white-space spellings (all schemes but the plain one).",
-    "C14": " Grown: system texts in four white-space spellings (all schemes but the plain one).",
+    "C13": " Grown: system texts in four white-space spellings and docstring layouts, number spellings (2., 2.0e+00, 17 digits), "
+           "multi-digit constants and coefficients, 3-digit variable indices, nvars / locals omitted, input vectors as numpy "
+           "scalars / int64 / float32, bounds at 12 units from 5e-324 to 1e300 (LinRel.BoxScaleLemma).",
+    "C14": " Grown: as C13, plus the third tolerance reading tol=0 / rel=1/4 (R16), k = 0 and numpy / fractional / tiny / huge k, "
+           "h given, bare condition / list forms of generate_penalty and generate_constraint.",
     "C16": " Grown: with_std; impose_measure / impose_position / impose_weight (cons/TransformsMeasure.tla: Track / NoWeight "
            "actions on product measures over exact rationals); the interval algebra behind interval_overlap "
-           "(cons/Intervals.tla) and the pair helpers (cons/PairTools.tla).",
+           "(cons/Intervals.tla) and the pair helpers (cons/PairTools.tla); every case replayed a third time in a rotated "
+           "parameter spelling x input spelling x magnitude (79 parameter spellings, setters f.index()/f.clip, ThmScale for the "
+           "12 scale-free kinds; catalogues edge / long (length 11-13, indices 10-12, 100) / nano (1e-9 lattice, digits 8/9).",
     "C18": " Grown: math/Stats.tla (standardised moments, extrema and ess_ forms with tol, support / expectation with tol, "
            "weighted_select, trimmed / winsorised definitions over 7 cut shapes, impose_median / mad / tmean / tvariance / tstd, "
            "normalisation table incl. zsum / zmass and l1-l3 norms) and math/StatsDist.tla (matrix / pairwise / reduced forms "
            "of the distance metrics, Lnorm with axis, lipschitz metric and distance, infeasibility; moves Swap / Translate / "
-           "Negate / RevCoords).",
+           "Negate / RevCoords); the translation law (Moments.ShiftLaw) with moments asked on samples moved by +-2^22 (1e-6).",
     "C20": " Grown: log-file ids 0 (falsy) and two-digit ids / iteration numbers (MC_LogFile_long_*); 0-d array costs.",
 }
 for _i in range(1, 21):
